@@ -20,6 +20,7 @@ import Driver.TotpSerial
 import Driver.Shapes
 import Driver.SpecFmt
 import Driver.Threads
+import Driver.UsingSalt
 /-
 Line protocol driver: `<suite> <op> <args…>` per input line, one result line out.
 Compiled (`lean_exe modeldrv`); nothing imported here touches Mathlib.
@@ -48,6 +49,7 @@ def dispatch (line : String) : String :=
   | "shape" :: rest => Driver.Shapes.handle rest
   | "sfmt" :: rest => Driver.SpecFmt.handle rest
   | "threads" :: rest => Driver.Threads.handle rest
+  | "usalt" :: rest => Driver.UsingSalt.handle rest
   | _ => Driver.bad
 
 partial def loop (h : IO.FS.Stream) (out : IO.FS.Stream) : IO Unit := do
